@@ -150,6 +150,12 @@ impl ParserError {
             (Some(t), _, _, None) => SyntaxError::InvalidTestUnknown(t, next),
             (_, Some(a), _, Some(d)) => SyntaxError::InvalidActionArgument(a, next, explain(&d)),
             (_, _, Some(g), Some(d)) => SyntaxError::InvalidGlobalArgument(g, next, explain(&d)),
+            (_, Some(a), _, None) if !a.is_empty() => {
+                SyntaxError::InvalidActionArgument(a, next, String::from("missing or invalid argument"))
+            }
+            (_, _, Some(g), None) if !g.is_empty() => {
+                SyntaxError::InvalidGlobalArgument(g, next, String::from("missing or invalid argument"))
+            }
             _ => SyntaxError::InvalidToken(next),
         }
         .into()
